@@ -157,6 +157,26 @@ def only_array_halves_merged(first: dict[str, str], second: dict[str, str], join
     return True
 
 
+def ref_expired(gwy, msg) -> bool | None:
+    """Is the message expired on the gateway's clock - by the committed lifetime table (the one C14 part A
+    holds the library to), not by the library's own say-so.  None: the table does not cover this kind."""
+    from .c14 import lifetime_of
+
+    life, known = lifetime_of(msg._pkt)
+    if not known:
+        return None
+    if life is None:
+        return False
+    age = (gwy._dt_now() - msg.dtm).total_seconds() - 3.0
+    return age > 0 if life == 0 else age / life >= 2.0
+
+
+def is_expired(gwy, msg) -> bool:
+    msg._gwy = gwy
+    ref = ref_expired(gwy, msg)
+    return bool(msg._expired) if ref is None else ref
+
+
 def content_check(ctx, gwy, pkts: dict[str, str], include_expired: bool, meta: dict[str, Any]) -> None:
     from ramses_tx.message import Message
     from ramses_tx.packet import Packet
@@ -186,7 +206,9 @@ def content_check(ctx, gwy, pkts: dict[str, str], include_expired: bool, meta: d
                 expired = msg._expired
             except Exception:  # noqa: BLE001  (C13/C14 subject)
                 continue
-            if expired:
+            ref = ref_expired(gwy, msg)
+            ctx.count("expired.checked.by_table" if ref is not None else "expired.checked.library_only")
+            if expired or ref:
                 ctx.violate(
                     f"C16|content|expired-packet|{msg.code}",
                     "a snapshot taken without include_expired contains a packet that is expired on the gateway's clock",
@@ -224,8 +246,7 @@ def lost_only_expired(gwy, first: dict[str, str], second: dict[str, str]) -> boo
             continue
         try:
             msg = Message(Packet.from_dict(k, v))
-            msg._gwy = gwy
-            if not msg._expired:
+            if not is_expired(gwy, msg):
                 return False
         except Exception:  # noqa: BLE001
             return False
